@@ -446,3 +446,20 @@ def to_gauss(a):
     if a.ndim == 1:
         return [[int(x), int(y)] for x, y in zip(re.tolist(), im.tolist())]
     return [[[int(x), int(y)] for x, y in zip(r, s)] for r, s in zip(re.tolist(), im.tolist())]
+
+
+# ---------------------------------------------------------------- dtype skeleton (coq/Dtype.v)
+DTC = dict(int32="I32", int64="I64", float32="F32", float64="F64", complex64="C64", complex128="C128")
+LK = dict(Dense="LDense", Tri="LDense", Sparse="LSparse", Diag="LDiag", Scal="LScal", Tridiag="LTridiag", House="LHouse", Ident="LIdent", Perm="LPerm")
+
+
+def dsk(t):
+    k = t["k"]
+    if k in LK:
+        return f"DLeaf {LK[k]} {DTC[t['dt']]}"
+    if k in ("Sum", "Prod", "Kron", "KronSum", "BDiag", "Concat"):
+        c = dict(Sum="DSum", Prod="DProd", Kron="DKron", KronSum="DKronSum", BDiag="DBDiag", Concat="DConcat")[k]
+        return f"{c} [" + ";".join("(" + dsk(x) + ")" for x in t["ms"]) + "]"
+    if k in ("Transp", "Adj", "Sliced"):
+        return dict(Transp="DTransp", Adj="DAdj", Sliced="DSliced")[k] + " (" + dsk(t["a"]) + ")"
+    raise AssertionError(k)
